@@ -13,7 +13,13 @@ import os
 
 from .. import sexp
 from ..bridge import guard, Raised, parse_domain, parse_problem, observe_state, write_tmp, REPO
-from ..core import same_state, show
+from ..core import same_state as _same_state, show
+
+
+def same_state(a, b):
+    """fluent values at 1e-9 relative tolerance: the mini-domains contain non-dyadic increments (0.00001)"""
+    return _same_state(a, b, exact=False)
+
 from ..gens import minidoms as md
 from ..refsem import RefState, non_interfering, applicable
 from ..runner import CaseResult, digest
